@@ -168,10 +168,11 @@ eval(struct expr *expr)
 				else
 					expr->u.constant.u = l->u.constant.u != 0;
 			} else if (l->type->prop & PROPINT && t->prop & PROPFLOAT) {
+				/* convert to float directly, going through double would round twice */
 				if (l->type->u.basic.issigned)
-					expr->u.constant.f = l->u.constant.i;
+					expr->u.constant.f = t->size == 4 ? (float)l->u.constant.i : (double)l->u.constant.i;
 				else
-					expr->u.constant.f = l->u.constant.u;
+					expr->u.constant.f = t->size == 4 ? (float)l->u.constant.u : (double)l->u.constant.u;
 			} else if (l->type->prop & PROPFLOAT && t->prop & PROPINT) {
 				if (t->u.basic.issigned) {
 					if (!(l->u.constant.f >= -0x1p63 && l->u.constant.f < 0x1p63))
